@@ -266,7 +266,8 @@ def run(ctx):
         for calls in perms:
             _one_file(ctx, dict(cfg, calls=calls), tid, gid, events, cfgs)
             tid += 1
-    for npix, chunk, where in ((100_000, 30_000, 'file_str'), (65_537, None, 'bytesio'), (65_536, 65_536, 'file_path')):
+    for npix, chunk, where in ((100_000, 30_000, 'file_str'), (65_537, None, 'bytesio'), (65_536, 65_536, 'file_path'),
+                               (40_000, 40_000, 'bytesio'), (100_000, 30_011, 'bytesio')):   # single writes above 1 MiB, in memory too
         gid += 1                       # the upper end of the pixel range in every run, not only by chance
         _one_file(ctx, L.large_config(rng, npix, chunk, where), tid, gid, events, cfgs)
         tid += 1
